@@ -127,12 +127,12 @@ def replay_inputs(unit, inputs, chain):
     fn, owner, kind = verify.resolve_target(cd.target)
 
     def _alarm(sig, frm):
-        raise TimeoutError('replay timed out')
+        raise replay.ReplayTimeout('replay timed out')
     old = signal.signal(signal.SIGALRM, _alarm)
     signal.alarm(5)
     try:
         return replay.check_contract(cd, fn, kind, owner, inputs, chain or None)
-    except TimeoutError:
+    except (TimeoutError, replay.ReplayTimeout):
         return {'verdict': 'error', 'detail': 'replay timed out'}
     finally:
         signal.alarm(0)
@@ -392,7 +392,7 @@ def bounded_standin(cd, chain, rng, n):
     ran = 0
     import signal
 
-    class _TO(Exception):
+    class _TO(replay.ReplayTimeout):
         pass
 
     def _alarm(sig, frm):
@@ -403,10 +403,10 @@ def bounded_standin(cd, chain, rng, n):
         if time.time() > t_end:
             break
         try:
-            signal.alarm(2)
+            signal.alarm(10)
             inp = replay.random_inputs(cd, rng, gens)
             out = replay.check_contract(cd, fn, kind, owner, inp, chain or None)
-        except (Exception, _TO):
+        except (Exception, replay.ReplayTimeout):
             continue
         finally:
             signal.alarm(0)
